@@ -228,7 +228,10 @@ def configuration(fn_node, ncl, Kmax, k, whole):
 def obligations(tier):
     fn = "gemclus.tree._utils.compute_all_splits"
     src = decython.extracted_source()
-    mod = ast.parse(src)
+    import warnings
+    with warnings.catch_warnings():
+        warnings.simplefilter("ignore", SyntaxWarning)
+        mod = ast.parse(src)
     nodes = [n for n in mod.body if isinstance(n, ast.FunctionDef) and n.name == "compute_all_splits"]
     if len(nodes) != 1:
         return [Ob("lemmaB: compute_all_splits present in _utils.pyx", REFUTED, "extract", "P", {}, fn=fn)]
